@@ -63,4 +63,25 @@ PLAN = {
         quick=[dict(test="TestC12A", cases=9000, shards=6, timeout=600), dict(test="TestC12B", cases=1500, shards=10, timeout=600)],
         thorough=[dict(test="TestC12A", cases=600000, shards=8, timeout=3000, shrink=120), dict(test="TestC12B", cases=60000, shards=8, timeout=3000, shrink=120)],
     ),
+    "C04": dict(
+        level="exploration",
+        rule='histories (pure data, <= 45 ops quick / 120 thorough) by 3 users over FX, a module-owned multi-chain pair and an externally-owned pair on 3 chains (eth, bsc, tron) with generated timeout / block-time parameters: send, cancel, increase-fee and bridge-call through Cosmos messages and through the precompile (crossChain, cancelSendToExternal, increaseBridgeFee, bridgeCall), request-batch with generated base/minimum fee, deposits (bech32 / erc20 target) and inbound bridge calls as oracle claims with deferred executeClaim, batch-executed events in and out of order, bridge-call results (success / failure), height-only events with jumps to timeout-1 / timeout / timeout+1 of open objects, fxcore height jumps, and a governance raw-store reset of the observed height. The harness plays the external contract (height < timeout, batch nonce increasing per token) and only emits admissible events. ' + "Oracle: ledger per token group after every step: held by tracked accounts (all representations) + pool/batches/outgoing calls + observed-but-unexecuted inbound claims = initial + observed deposits - withdrawals observed as executed; and every tracked account's holdings change by exactly what the operation states. non-trivial = history with a deposit, a withdrawal door and a refund/cancel/timeout over >= 2 token kinds",
+        assumptions=["IBC vouchers are left to C19", "tokens originating on fxcore are only deposited back up to the amount currently out on that chain (the external contract cannot release more)"],
+        quick=[dict(test="TestC04", cases=1200, shards=12, timeout=900)],
+        thorough=[dict(test="TestC04", cases=40000, shards=16, timeout=3400, shrink=120)],
+    ),
+    "C05": dict(
+        level="exploration",
+        rule='histories (pure data, <= 45 ops quick / 120 thorough) by 3 users over FX, a module-owned multi-chain pair and an externally-owned pair on 3 chains (eth, bsc, tron) with generated timeout / block-time parameters: send, cancel, increase-fee and bridge-call through Cosmos messages and through the precompile (crossChain, cancelSendToExternal, increaseBridgeFee, bridgeCall), request-batch with generated base/minimum fee, deposits (bech32 / erc20 target) and inbound bridge calls as oracle claims with deferred executeClaim, batch-executed events in and out of order, bridge-call results (success / failure), height-only events with jumps to timeout-1 / timeout / timeout+1 of open objects, fxcore height jumps, and a governance raw-store reset of the observed height. The harness plays the external contract (height < timeout, batch nonce increasing per token) and only emits admissible events. ' + "Oracle: reference model of pool / batches / calls compared with the decoded stores after every step (each id in exactly one place, fields byte-equal to what the creator supplied, ids strictly increasing), settlement amounts per account, cancel only by the creator, batch cancel returns transfers unchanged, a call whose execution was observed is never refunded. non-trivial = history with a batch and (cancel after batching, out-of-order execution, fee increase or batch timeout)",
+        assumptions=["releases are observed (not predicted) and then validated, so a different but property-conforming release order would not alarm"],
+        quick=[dict(test="TestC05", cases=1200, shards=12, timeout=900)],
+        thorough=[dict(test="TestC05", cases=40000, shards=16, timeout=3400, shrink=120)],
+    ),
+    "C06": dict(
+        level="exploration",
+        rule='histories (pure data, <= 45 ops quick / 120 thorough) by 3 users over FX, a module-owned multi-chain pair and an externally-owned pair on 3 chains (eth, bsc, tron) with generated timeout / block-time parameters: send, cancel, increase-fee and bridge-call through Cosmos messages and through the precompile (crossChain, cancelSendToExternal, increaseBridgeFee, bridgeCall), request-batch with generated base/minimum fee, deposits (bech32 / erc20 target) and inbound bridge calls as oracle claims with deferred executeClaim, batch-executed events in and out of order, bridge-call results (success / failure), height-only events with jumps to timeout-1 / timeout / timeout+1 of open objects, fxcore height jumps, and a governance raw-store reset of the observed height. The harness plays the external contract (height < timeout, batch nonce increasing per token) and only emits admissible events. ' + "Oracle: a batch / call may disappear for timeout only in a step that observed an event and only if the last observed external height >= its timeout; nothing can be batched / called out while no external height is observed; an admissible execution event is never rejected; an object whose execution the external chain reported is never refunded. non-trivial = a timeout release and an execution (or a boundary-height jump) in one history",
+        assumptions=["the external contract is modelled by its three relevant require()s"],
+        quick=[dict(test="TestC06", cases=1200, shards=12, timeout=900)],
+        thorough=[dict(test="TestC06", cases=40000, shards=16, timeout=3400, shrink=120)],
+    ),
 }
